@@ -44,6 +44,13 @@ pub fn w_from_fn__fexpr() -> [u16; 4] { konst::array::from_fn_!(mkg()) }
 pub fn w_map_<T, U>(a: [T; 4]) -> [U; 4] { konst::array::map_!(a, |x| m0::<T, U>(x)) }
 pub fn w_map__break<T, U>(a: [T; 4]) -> [U; 4] { konst::array::map_!(a, |x| { if cond() { break } m0::<T, U>(x) }) }
 pub fn w_from_fn_<U>() -> [U; 5] { konst::array::from_fn_!(|i| g0::<U>(i)) }
+#[inline(never)] pub fn m1<T, U>(x: &T) -> U { loop {} }
+pub fn w_map__return<T, U>(a: [T; 4]) -> [U; 4] { konst::array::map_!(a, |x| { if cond() { return loop {} } m0::<T, U>(x) }) }
+pub fn w_map__ref<T, U>(a: [T; 4]) -> [U; 4] { konst::array::map_!(a, |ref x| m1::<T, U>(x)) }
+pub fn w_map__ref_return<T, U>(a: [T; 4]) -> [U; 4] { konst::array::map_!(a, |ref x| { if cond() { return loop {} } m1::<T, U>(x) }) }
+pub fn w_map__ref_labeled<T, U>(a: [T; 4]) -> [U; 4] { 'outer: loop { return konst::array::map_!(a, |ref x| { if cond() { break 'outer } m1::<T, U>(x) }); } loop {} }
+pub fn w_map__mut<T, U>(a: [T; 4]) -> [U; 4] { konst::array::map_!(a, |mut x| m0::<T, U>(x)) }
+pub fn w_map__wild<T, U>(a: [T; 4]) -> [U; 4] { konst::array::map_!(a, |_| g0::<U>(0)) }
 pub const W_COLLECT: [u8; 3] = konst::iter::collect_const!(u8 => 0u8..3);
 pub const W_COLLECT_FILTER: [u8; 2] = konst::iter::collect_const!(u8 => 0u8..4, filter(|x| *x % 2 == 0));
 pub const W_COLLECT_FLAT: [u8; 4] = konst::iter::collect_const!(u8 => 0u8..2, flat_map(|x| &[x, x]), copied());
@@ -68,8 +75,10 @@ def run(ctx):
     arg_once(ctx, prog)
     builder(ctx, ctx.program("FULL"))
     byval(ctx, prog)
+    elem_owned(ctx, prog)
     twopass(ctx, prog)
     early_exit_programs(ctx)
+    temporaries_programs(ctx)
     from .. import macrolint
     macrolint.hygiene_rule(ctx, ["array_map", "array_from_fn", "__array_map_by_val", "__array_from_fn2", "iter_collect_const", "str_from_iter"], facts.REPO)
     ctx.floor("HYGIENE", 16)
@@ -78,7 +87,31 @@ def run(ctx):
     ctx.floor("ARG-ONCE", 4)
     ctx.floor("BUILDER", 5)
     ctx.floor("BYVAL", 3)
+    ctx.floor("ELEM-OWNED", 8)
     ctx.floor("TWOPASS", 6)
+
+
+# the array operand is an expression like any method receiver: temporaries it creates live until the whole call is over
+# (`[&make(1), &make(2)].map(f)` is fine in std, and a guard temporary is dropped after the last closure call)
+TEMP_PROGS = [
+    ("map_!/borrowed temporaries", "pub fn mk(n: u8) -> String { n.to_string() }\npub fn f() -> [usize; 2] { konst::array::map_!([&mk(1), &mk(22)], |s| s.len()) }"),
+    ("map_!/borrowed temporaries, fn mapper", "pub fn mk(n: u8) -> String { n.to_string() }\npub fn g(s: &String) -> usize { s.len() }\npub fn f() -> [usize; 2] { konst::array::map_!([&mk(1), &mk(22)], g) }"),
+    ("map!/borrowed temporaries", "pub fn mk(n: u8) -> u8 { n }\npub fn f() -> [u8; 2] { konst::array::map!([&mk(1), &mk(22)], |s| *s) }"),
+    ("map!/borrowed temporary array", "pub fn mk(n: u8) -> [u8; 2] { [n, n] }\npub fn f() -> [u8; 2] { konst::array::map!(&mk(1), |s| s) }"),
+]
+
+
+def temporaries_programs(ctx):
+    """ACC-TEMP: the operand expression's temporaries outlive the element loop (the expansions bind the operand in a `match`
+    scrutinee); an expansion that binds it with `let` drops them before the closure runs - borrowed temporaries stop compiling
+    and a guard temporary is released too early"""
+    res = facts.compile_many([(n, "#![allow(unused)]\n" + src + "\n") for n, src in TEMP_PROGS], ctx.th)
+    for (n, src), r in zip(TEMP_PROGS, res):
+        if not r["ok"]:
+            ctx.violation("ACC-TEMP", n, "a valid program is rejected (std's `<[T; N]>::map` accepts the same operand): `%s`: %s" % (
+                src.splitlines()[-1], "; ".join(e["message"][:120] for e in r["errors"][:2])), detail={"program": src})
+        ctx.instance("ACC-TEMP", n, sample={"program": src, "accepted": r["ok"]})
+    ctx.floor("ACC-TEMP", len(TEMP_PROGS))
 
 
 def init_sites(ctx, prog):
@@ -360,6 +393,39 @@ def byval(ctx, prog):
         if msg:
             ctx.violation("BYVAL", name, "%s: %s" % (name, msg), b.file())
         ctx.instance("BYVAL", name, sample={"witness": name})
+
+
+def elem_owned(ctx, prog):
+    """ELEM-OWNED (by-value map): while the closure body runs the element taken from the consumer is an ordinary owned local -
+    `ManuallyDrop::into_inner` is applied to what `next()` returned before any caller code - so every way out of the body
+    (fall-through, `return`, `?`, a labelled `break`, a panic) drops it exactly once by scope; an element still wrapped in its
+    ManuallyDrop while caller code runs is leaked by every early exit"""
+    for name in ("w_map_", "w_map__break", "w_map__return", "w_map__ref", "w_map__ref_return", "w_map__ref_labeled", "w_map__mut", "w_map__wild"):
+        b = prog.get("w11::" + name)
+        if b is None:
+            ctx.violation("ELEM-OWNED", name, "witness %s missing" % name)
+            continue
+        nexts = [bb for bb, t in b.calls() if t.get("callee") and t["callee"]["path"].endswith("ArrayConsumer::<T, N>::next") or
+                 (t.get("callee") and t["callee"]["path"].split("::")[-1] == "next" and "ArrayConsumer" in t["callee"]["path"])]
+        unwraps = [bb for bb, t in b.calls() if t.get("callee") and "ManuallyDrop" in t["callee"]["path"] and t["callee"]["path"].split("::")[-1] == "into_inner"]
+        user = [(bb, t["callee"]["path"]) for bb, t in b.calls() if t.get("callee") and t["callee"]["path"].startswith("w11::")]
+        msg = None
+        if len(nexts) != 1:
+            msg = "expected one consumer.next() call, found %d" % len(nexts)
+        else:
+            inner = [u for u in unwraps if b.dominates(nexts[0], u)]
+            loops_ = [blocks for blocks in b.loops().values() if nexts[0] in blocks]
+            body_user = [(bb, c) for bb, c in user if any(bb in blocks for blocks in loops_) or b.dominates(nexts[0], bb)]
+            if not body_user:
+                msg = "no caller code found in the element loop"
+            for bb, c in body_user:
+                if not b.dominates(nexts[0], bb):
+                    continue
+                if not any(b.dominates(u, bb) for u in inner):
+                    msg = msg or "caller code (%s) runs while the element is still inside its ManuallyDrop: an early exit from the closure body leaks it" % c.split("::")[-1]
+        if msg:
+            ctx.violation("ELEM-OWNED", name, "%s: %s" % (name, msg), b.file())
+        ctx.instance("ELEM-OWNED", name, sample={"witness": name, "unwrap_sites": len(unwraps)})
 
 
 def twopass(ctx, prog):
